@@ -191,7 +191,7 @@ def generate():
     na.sort(key=lambda d: d['property_id'])
     m = {
         'version': 1,
-        'setup_cmd': 'bin/check build plain asan plain14 aux',
+        'setup_cmd': 'bin/check build plain asan plain14 plain20 aux',
         'hooks': {
             'guard': 'AMC_VERIF',
             'enable': 'no hook exists: every seam is a template parameter of the library (allocator, element type, comparator, iterator) or a '
